@@ -35,20 +35,26 @@ CROSS = {
             ("C13", "R3_byte_offset", "a tick read or written at the wrong byte offset is another tick's net / gross"),
             ("pair", "manager::liquidity_manager::calculate_modify_liquidity", "the array that is grown is the array whose tick is initialised"),
             ("C18", "R1_range_fields", "a position moved to a new range while it still holds liquidity leaves that liquidity booked in the old ticks"),
-            ("lostupdate", "R_lost_updates", "an update made to a copy of the state and dropped never happened")],
+            ("lostupdate", "R_lost_updates", "an update made to a copy of the state and dropped never happened"),
+            ("C13", "R4c_initialise_only_blank", "a fixed array overwritten by a dynamic header loses every net / gross it holds"),
+            ("C13", "R4b_resize_moves_no_bytes", "a resize that writes tick bytes changes net / gross of a tick nobody updated"),
+            ("C15", "R4_loaders_and_unchecked", "a tick array of another pool takes this pool's net / gross")],
     "C07": [("C01", "R2_pay_reset", "collecting fees resets what is owed and nothing else (the checkpoint stays)"),
             ("C15", "R3_back_references", "a position settled against another pool's growth is credited fees its pool never collected"),
             ("C10", "R5_loop_cursor", "a cursor moved without a crossing leaves fee_growth_outside flipped"),
             ("C06", "R3_booking_side", "fee growth booked on the wrong token is credited in the wrong token"),
             ("C06", "R4_swap_transfers", "ticks crossed by a swap whose pool update is skipped keep a flipped fee_growth_outside: a position bounded there is credited the pool's whole history"),
-            ("lostupdate", "R_lost_updates", "an update made to a copy of the state and dropped never happened")],
+            ("lostupdate", "R_lost_updates", "an update made to a copy of the state and dropped never happened"),
+            ("pair", "manager::liquidity_manager::_calculate_modify_liquidity", "growth inside is read from the ticks as they were before this instruction's update"),
+            ("C05", "R4_in_range", "liquidity counted in range at the upper tick dilutes every in-range position's share")],
     "C08": [("C16", "R3_reposition_info", "the caller's maxima bound what a reposition may take, whichever way the net transfer goes"),
             ("C02", "R5_exact_remainders", "deposits are rounded up through the same remainder tests"),
             ("pair", "manager::liquidity_manager::calculate_liquidity_token_deltas", "both packagings compute the same token amounts for a liquidity delta")],
     "C09": [("C10", "R5_loop_cursor", "the tick index the swap stores with a price is the tick of that price (or the crossed tick's neighbour), computed by the one inverse"),
             ("C08", "R1_case_split", "every price a position is valued at comes from the one tick-to-price function"),
             ("C19", "R1c_pool_initialize", "a pool is only created at a price inside the published bounds"),
-            ("C08", "R4_estimate", "range bounds are priced by the one tick-to-price function")],
+            ("C08", "R4_estimate", "range bounds are priced by the one tick-to-price function"),
+            ("C14", "R6_stepping", "a tick-group boundary is priced by the one tick-to-price function, whichever direction the step runs")],
     "C10": [("C13", "R5_shared_checks", "fixed and dynamic arrays must refuse the same lookups"),
             ("C05", "R5_crossing", "an initialised tick the swap reaches is crossed, whatever else the step did"),
             ("C06", "R3_booking_side", "the tick index stored with the pool is the one the loop ended on: the next swap's search starts there"),
@@ -59,8 +65,11 @@ CROSS = {
             ("C12", "R3_accessors", "the Pinocchio write-back of reward growth and its timestamp"),
             ("C16", "R1_swap_wiring", "the v2 wrapper must hand on the accrued reward infos"),
             ("C07", "R3_init_convention", "a tick initialised at or below the price takes the accrued growths as its outside value"),
-            ("lostupdate", "R_lost_updates", "an update made to a copy of the state and dropped never happened")],
-    "C12": [("C13", "R5_shared_checks", "the Pinocchio lookup must serve exactly the ticks the Anchor one serves")],
+            ("lostupdate", "R_lost_updates", "an update made to a copy of the state and dropped never happened"),
+            ("pair", "manager::liquidity_manager::calculate_fee_and_reward_growths", "an out-of-range position's refresh accrues the pool's rewards like any other"),
+            ("pair", "manager::position_manager::next_position_modify_liquidity_update", "owed rewards are carried, never reset by a settlement")],
+    "C12": [("C13", "R5_shared_checks", "the Pinocchio lookup must serve exactly the ticks the Anchor one serves"),
+            ("C04", "R2_authority_helpers", "both packagings demand delegated_amount == 1 of a delegate")],
     "C13": [("C12", "R3_accessors", "a de-initialised fixed slot must be cleared as a dynamic one is"),
             ("pair", "state::tick::Tick::check_is_out_of_bounds", "both array implementations accept the same ticks, the boundary ticks included")],
     "C02": [("C06", "R8_widths", "a truncated amount is not rounded in the pool's favour, it is dropped")],
@@ -73,7 +82,8 @@ CROSS = {
             ("lostupdate", "R_lost_updates", "an update made to a copy of the state and dropped never happened")],
     "C16": [("C03", "R1_threshold_table", "the trader's limit is compared with the amount net of transfer fees"),
             ("xfer", "R_cpi_builders", "checked transfers carry the mint, its decimals and - iff it has a hook - the hook accounts"),
-            ("events", "R_events", "the amounts and transfer fees reported are those of the same token side")],
+            ("events", "R_events", "the amounts and transfer fees reported are those of the same token side"),
+            ("C06", "R4_swap_transfers", "the amounts moved by a two-hop are each leg's own input and output")],
     "C17": [("C04", "R1e_mutated_accounts_are_mut", "the second pool of a two-hop must be written back like the first"),
             ("C15", "R3_back_references", "each leg's oracle is that leg's pool's own"),
             ("C03", "R1_threshold_table", "the two-hop's limit is compared with the last leg's output / the first leg's input"),
@@ -91,7 +101,8 @@ CROSS = {
             ("C16", "R5_tlv_reader", "the input the pool books is what arrives net of the current epoch's transfer fee"),
             ("C07", "R6_swap_growth_handoff", "the step's LP share is divided by the liquidity it traded against and booked before the tick is crossed"),
             ("C17", "R3_equality_guard", "tokens a second hop does not price are taken from the trader and credited to nobody"),
-            ("lostupdate", "R_lost_updates", "an update made to a copy of the state and dropped never happened")],
+            ("lostupdate", "R_lost_updates", "an update made to a copy of the state and dropped never happened"),
+            ("C16", "R4_helpers", "what the pool prices is what its vault receives: the excluded amount subtracts the fee rounded as the token program rounds it")],
     "C19": [("C16", "R5_tlv_reader", "the program's own copy of the extension numbering decides which rule a mint is held to")],
     "C20": [("C10", "R3_search_siblings", "the program side the SDK mirrors is one search, whichever array encoding serves it")],
 }
@@ -100,6 +111,30 @@ NEEDS_SDK = {p for p, lst in CROSS.items() if any(m == "C20" for m, _, _ in lst)
 
 def apply(run, prop):
     """Run the cross-checks of `prop` under rule id RX. Returns the number of rule functions run."""
+    # the census of unconditional refusals, restricted to the functions this property's rules read (rule id RG)
+    try:
+        from rules import guardcensus
+        guardcensus.R_guards(run, "RG")
+    except Exception as e:
+        run.missing("RG", "rule-crashed:guardcensus", "%s: %s" % (type(e).__name__, e))
+    # the census of account constraints: all structs for the two account properties, otherwise the structs of the instructions whose
+    # handlers this property's rules read (rule id RA)
+    try:
+        from rules import acctcensus
+        from analysis import program
+        if prop in ("C01", "C04", "C15"):
+            structs = None
+        else:
+            structs = set()
+            for e in program.entries(run.facts):
+                if (e.handler and e.handler in run.fns_touched) or (e.routed and e.routed in run.fns_touched):
+                    structs.add((e.ctx_struct or "").rsplit("::", 1)[-1])
+        if structs is not None and prop in ("C03", "C06", "C10", "C14", "C16", "C17"):
+            structs |= {"Swap", "SwapV2", "TwoHopSwap", "TwoHopSwapV2"}     # the swap instructions, whichever helper the rules read
+        if structs is None or structs:
+            acctcensus.R_accounts(run, "RA", structs)
+    except Exception as e:
+        run.missing("RA", "rule-crashed:acctcensus", "%s: %s" % (type(e).__name__, e))
     lst = CROSS.get(prop, [])
     if not lst:
         return 0
